@@ -432,3 +432,85 @@ def guards_of(func_node: ast.AST, target: ast.AST) -> List[Tuple[ast.AST, bool]]
 
     visit_block(getattr(func_node, "body", []))
     return facts
+
+
+# --------------------------------------------------------------------------------------
+# containment (calls lexically inside try bodies)
+# --------------------------------------------------------------------------------------
+
+
+def block_cfg(block: Sequence[ast.stmt], raising: Optional[Callable[[ast.AST], bool]] = None) -> CFG:
+    holder = ast.FunctionDef(
+        name="<block>", args=ast.arguments(posonlyargs=[], args=[], kwonlyargs=[], kw_defaults=[], defaults=[]),
+        body=list(block), decorator_list=[], lineno=getattr(block[0], "lineno", 1) if block else 1, col_offset=0,
+    )
+    return CFG(holder, raising=raising or (lambda node: isinstance(node, ast.Raise)))
+
+
+def handler_always_raises(handler: ast.ExceptHandler, class_names: Set[str]) -> Tuple[bool, str]:
+    """Every path through the handler body ends in ``raise <one of class_names>(...)``
+    (a bare ``raise`` is accepted when ``"*reraise"`` is in class_names)."""
+    cfg = block_cfg(handler.body)
+    reach = cfg.reachable_from([cfg.entry])
+    if cfg.exit in reach:
+        return False, "a path through the handler completes normally (exception swallowed)"
+    for nid in reach:
+        node = cfg.nodes[nid]
+        if node.kind == "stmt" and isinstance(node.ast_node, ast.Raise):
+            exc = node.ast_node.exc
+            if exc is None:
+                if "*reraise" not in class_names:
+                    return False, "handler re-raises the original exception unconverted"
+                continue
+            name = (dotted(exc.func if isinstance(exc, ast.Call) else exc) or "").split(".")[-1]
+            if name not in class_names:
+                return False, f"handler raises {name}"
+    return True, ""
+
+
+def enclosing_tries(func_node: ast.AST, target: ast.AST) -> List[Tuple[ast.Try, str]]:
+    """Try statements around ``target`` innermost first, with the part holding it."""
+    out: List[Tuple[ast.Try, str]] = []
+
+    def visit(block: Sequence[ast.stmt], chain: List[Tuple[ast.Try, str]]) -> bool:
+        for stmt in block:
+            if not (stmt is target or _contains(stmt, target)):
+                continue
+            if isinstance(stmt, ast.Try):
+                for part, sub in (("body", stmt.body), ("else", stmt.orelse), ("final", stmt.finalbody)):
+                    if any(s is target or _contains(s, target) for s in sub):
+                        return visit(sub, [(stmt, part)] + chain)
+                for handler in stmt.handlers:
+                    if any(s is target or _contains(s, target) for s in handler.body):
+                        return visit(handler.body, [(stmt, "handler")] + chain)
+                out.extend(chain)
+                return True
+            for attr in ("body", "orelse", "finalbody"):
+                sub = getattr(stmt, attr, None)
+                if isinstance(sub, list) and sub and isinstance(sub[0], ast.stmt):
+                    if any(s is target or _contains(s, target) for s in sub):
+                        return visit(sub, chain)
+            out.extend(chain)
+            return True
+        return False
+
+    visit(getattr(func_node, "body", []), [])
+    return out
+
+
+def catching_handler(func_node: ast.AST, target: ast.AST, catches: Callable[[ast.ExceptHandler], bool]) -> Optional[ast.ExceptHandler]:
+    """Innermost handler (of a try whose *body* holds ``target``) accepted by ``catches``."""
+    for try_node, part in enclosing_tries(func_node, target):
+        if part != "body":
+            continue
+        for handler in try_node.handlers:
+            if catches(handler):
+                return handler
+    return None
+
+
+def is_catch_all(handler: ast.ExceptHandler) -> bool:
+    if handler.type is None:
+        return True
+    names = list(handler.type.elts) if isinstance(handler.type, ast.Tuple) else [handler.type]
+    return any((dotted(n) or "").split(".")[-1] in ("Exception", "BaseException") for n in names)
